@@ -30,7 +30,7 @@ ASSUMPTIONS = [
     "'names the module' = the message contains the dotted or slash-separated module path or its top-level package name",
 ]
 
-FORMS = ["bare", "alias", "modattr", "fullattr", "modalias"]
+FORMS = ["bare", "alias", "modattr", "fullattr", "modalias", "facade"]
 EDITS = ["acc_fun", "acc_var", "non_fun", "non_var", "nb_fun", "pkgsib_fun"]
 COUNTS = [0, 1, 2, 5, 40]
 
@@ -49,7 +49,7 @@ def grid(tier):
         # keep every (d, k, lookalike, count) combination at least once; stride forms x edits
         out = []
         for i, p in enumerate(pts):
-            j = (p["d"] * 7 + p["k"] * 3 + p["count"] + (1 if p["lookalike"] else 0)) % 30
+            j = (p["d"] * 7 + p["k"] * 3 + p["count"] + (1 if p["lookalike"] else 0)) % 36
             if FORMS.index(p["form"]) * 6 + EDITS.index(p["edit"]) == j:
                 out.append(p)
         pts = out
@@ -91,7 +91,8 @@ def render(pt, state):
     )
     files["/".join(parts[:-1] + ["pkgsib"]) + ".py"] = "import vlog\n\n\ndef psf():\n    vlog.rec('psf')\n    return ('psf', %d)\n" % state.get("pver", 0)
     files["other/__init__.py"] = ""
-    files["other/sib.py"] = "import vlog\n\nSV = %r\n\n\ndef sf():\n    vlog.rec('sf')\n    return ('sf', %d, SV)\n" % (state["sv"], state["sver"])
+    files["other/sib.py"] = ("import dds\nimport vlog\n\nSV = %r\n\n\ndef sf():\n    vlog.rec('sf')\n    return ('sf', %d, SV)\n\n\n"
+                             "@dds.data_function('/other/sdata')\ndef sdata():\n    vlog.rec('sdata')\n    return ('sdata',)\n" % (state["sv"], state["sver"]))
     nb = neighbour_parts(pt)
     for i in range(1, len(nb)):
         files.setdefault("/".join(nb[:i]) + "/__init__.py", "")
@@ -107,13 +108,18 @@ def render(pt, state):
         imp, call = f"from {parent} import leaf", "leaf.lf()"
     elif form == "fullattr":
         imp, call = f"import {mod}", f"{mod}.lf()"
+    elif form == "facade":
+        # the accepted function is reached as an attribute of a NON-accepted module that re-exports it
+        files["facade.py"] = f"from {mod} import lf\n"
+        imp, call = "import facade", "facade.lf()"
     else:
         imp, call = f"import {mod} as leaf_al", "leaf_al.lf()"
     files["rootpk/__init__.py"] = ""
     files["rootpk/main.py"] = (
         f"import dds\nimport vlog\n{imp}\nfrom other import sib\nimport {'.'.join(nb)} as nbm\nimport {'.'.join(parts[:-1] + ['pkgsib'])} as psm\n\n\n"
         "@dds.data_function('/out')\ndef out():\n    vlog.rec('out')\n"
-        f"    return ('out', {call}, sib.sf(), nbm.nf(), psm.psf())\n"
+        f"    return ('out', {call}, sib.sf(), nbm.nf(), psm.psf())\n\n\n"
+        "@dds.data_function('/out2')\ndef out2():\n    vlog.rec('out2')\n    return ('out2', sib.sdata())\n"
     )
     return files
 
@@ -221,6 +227,14 @@ def check_point(pt, ev=None, scratch=None):
                 raise Violation(f"accepted={acc!r}: the refusal does not name the module {mod}: {msg[:300]}", pt)
             if r2["log"]:
                 raise Violation(f"accepted={acc!r}: user functions ran before the refusal: {r2['log']}", pt)
+        # a data function of a non-accepted module reached at run time from an accepted pipeline
+        r3 = evaluate(root, scratch.sub(), pt, "rootpk.main", "out2")
+        if r3["exc"] is None:
+            raise Violation(f"accepted={acc!r}: the data function other.sib.sdata of a non-accepted module was evaluated untracked inside an accepted pipeline (returned {r3['value']!r})", pt)
+        if not r3["exc"]["is_dds"] or "other" not in r3["exc"]["msg"]:
+            raise Violation(f"accepted={acc!r}: the data function of the non-accepted module other.sib reached inside a pipeline was refused with {r3['exc']['type']}: {r3['exc']['msg'][:200]} (not a DDS error naming the module)", pt)
+        if "sdata" in r3["log"]:
+            raise Violation(f"accepted={acc!r}: the body of the non-accepted data function ran before the refusal: {r3['log']}", pt)
         if ev is not None:
             ev.case(pt, pt["d"] >= 3 or pt["count"] != 2, features=[f"depth{pt['d']}", f"count{pt['count']}", "edit:" + pt["edit"], "form:" + pt["form"], "accept-by-object" if pt.get("by_object") and not pt["lookalike"] else "accept-by-name",
                                                                   "lookalike" if pt["lookalike"] else f"prefix{pt['k']}"])
